@@ -340,6 +340,7 @@ def check_C18(tier):
     af = {c: factsmod.load(c, th) for c in cfgs}
     n, nref = apiparity.run_p1(af, run, "C18")
     n5 = apiparity.run_p5(af, run, "C18")
+    n5 += apiparity.run_p6(af, run, "C18")
     return run.finish(
         explanation="Structural clauses of C18: P1 every externally reachable function of a backend type in the reference "
                     "configuration exists with the same signature (modulo module paths and the documented type aliases) in "
@@ -348,7 +349,8 @@ def check_C18(tier):
                     "structural rules (status words are masks, control words are masks, primitives are multiplexers, lookups "
                     "scan their table, field codecs' gates) are re-decided under each build configuration; P5 sibling functions of "
                     "two backends that have the same shape (block count and call sequence) must also agree on which operands "
-                    "(parameters positionally, locals up to renaming) each call receives. NOT decided: "
+                    "(parameters positionally, locals up to renaming) each call receives; P6 siblings calling the same set of own-type "
+                    "methods have the same number of call sites per method; K5 limb coverage in every backend. NOT decided: "
                     "byte-identical results of the arithmetic.",
         evaluations=run.obligations, distinct=n,
         rule="one obligation per (configuration, API item) for P1, per index/offset pair for P4, plus the obligations of the "
